@@ -427,7 +427,7 @@ static void exec_c09(const plan_t *p)
         } else if (!strcmp(k, "ctx")) conf_register((int)o->a[0], (int)o->a[1]);
         else if (!strcmp(k, "parse") && o->has_s) {
             char *name = sim_malloc(o->slen + 1), *ret;
-            int balanced, parse_ok = 0;
+            int balanced, parse_ok = 0, unjudged = 0;
             memcpy(name, o->s, o->slen); name[o->slen] = 0;
             entry_ctx = simacc_ctx_depth(); entry_fs = simacc_fstate_depth();
             /* reference first (it only reads the tree), then the real parser */
@@ -443,30 +443,41 @@ static void exec_c09(const plan_t *p)
                 parse_ok = ret != NULL;
                 if (ret) sim_free(ret);
                 /* the reference follows (it reads the tree and the record of what the simulated fopen did to which file) */
-                for (int reading = simfd_ntransient ? 0 : 1; reading < 2; reading++) {
-                    /* reading 0 (only where a read failed once during this parse): the file ended at the failed read; reading 1: nothing was
-                       lost.  The first that fits is taken; the last one is the one that reports */
-                    int ok;
-                    ref_use_cut = reading == 0; ref_cut_used = 0;
-                    memcpy(stk, stk_save, sizeof(stk));
-                    { int ngot_after = ngot; ngot = ng; run_reference(name, o, entry_ctx, ng, tok_at_entry, 0); ngot = ngot_after; }
-                    if (ref_eof_nonl) {
-                        /* a last line without a newline: accepted whether it is delivered or dropped, as long as the parse treats every such line the
-                           same way.  Which reading the library took shows in the calls it made -- and, where such a line reaches no recorded handler
-                           (an end, a begin of an unknown block), in the depth of the context stack it left */
-                        compare_quiet = 1;
-                        if (!compare_traces("parse") || depth != simacc_ctx_depth()) {
-                            memcpy(stk, stk_save, sizeof(stk));
-                            run_reference(name, o, entry_ctx, ng, tok_at_entry, 1);
-                            probe_hit("unterminated_last_line_delivered");
+                {
+                    /* Where a read failed once during this parse the statement is silent: it quantifies over config texts, not over
+                       reads that fail.  Three readers written independently of each other do three things -- fgets() loses the line it
+                       had begun and the library takes the failure for the end of the file; getline() hands the beginning of the broken
+                       line out as a line and its rest as the next one; a getc() loop that retries loses nothing.  So the handler trace is
+                       not judged then, unless it is that of one of two readings (the file ends at the failed read / nothing was lost), in
+                       which case the reading's context depth serves the balance rule below; files closed and file stack restored are
+                       demanded regardless. */
+                    int fitted = 0;
+                    for (int reading = simfd_ntransient ? 0 : 1; reading < 2 && !fitted; reading++) {
+                        int ok;
+                        ref_use_cut = reading == 0; ref_cut_used = 0;
+                        memcpy(stk, stk_save, sizeof(stk));
+                        { int ngot_after = ngot; ngot = ng; run_reference(name, o, entry_ctx, ng, tok_at_entry, 0); ngot = ngot_after; }
+                        if (ref_eof_nonl) {
+                            /* a last line without a newline: accepted whether it is delivered or dropped, as long as the parse treats every such line the
+                               same way.  Which reading the library took shows in the calls it made -- and, where such a line reaches no recorded handler
+                               (an end, a begin of an unknown block), in the depth of the context stack it left */
+                            compare_quiet = 1;
+                            if (!compare_traces("parse") || depth != simacc_ctx_depth()) {
+                                memcpy(stk, stk_save, sizeof(stk));
+                                run_reference(name, o, entry_ctx, ng, tok_at_entry, 1);
+                                probe_hit("unterminated_last_line_delivered");
+                            }
+                            compare_quiet = 0;
                         }
+                        compare_quiet = simfd_ntransient != 0;
+                        ok = compare_traces("parse");
                         compare_quiet = 0;
+                        if (simfd_ntransient && ok && depth == entry_ctx && simacc_ctx_depth() != entry_ctx) ok = 0;      /* (same calls, another depth: not this reading) */
+                        if (reading == 0 && ref_cut_used) probe_hit("config_read_failed_once_inside_the_file");
+                        if (ok) { fitted = 1; if (reading == 0 && ref_cut_used) probe_hit("file_taken_to_end_at_the_failed_read"); }
                     }
-                    compare_quiet = reading == 0;
-                    ok = compare_traces("parse");
-                    compare_quiet = 0;
-                    if (reading == 0 && ref_cut_used) probe_hit("config_read_failed_once_inside_the_file");
-                    if (ok) { if (reading == 0 && ref_cut_used) probe_hit("file_taken_to_end_at_the_failed_read"); break; }
+                    if (!fitted) { depth = -1; probe_hit("trace_after_a_failed_read_not_judged"); }      /* (only possible where a read failed) */
+                    if (simfd_ntransient) unjudged = 1;      /* whichever way the parser took the failure, the mirror cannot know what it left in the parser's tables for the next parse */
                 }
                 ref_use_cut = 1;
             }
@@ -475,6 +486,7 @@ static void exec_c09(const plan_t *p)
             if (simacc_fstate_depth() != entry_fs) sim_fail("INVARIANT(file-stack)", "file stack index is %d after parsing, %d before", simacc_fstate_depth(), entry_fs);
             if (balanced && simacc_ctx_depth() != entry_ctx) sim_fail("INVARIANT(context-stack)", "blocks are balanced but the context stack index is %d after parsing, %d before", simacc_ctx_depth(), entry_ctx);
             if (!balanced) probe_hit("context_stack_after_unbalanced_input");        /* (promised for balanced input only) */
+            if (unjudged) { sim_free(name); break; }      /* the mirror no longer knows which states the handlers hold: the run ends here, with what could be demanded demanded */
             if (strcmp(simfs_cwd(), "/cfg")) probe_hit("cwd_left_changed");          /* (the statement does not mention the working directory) */
             (void)parse_ok;
             simfs_set_cwd("/cfg");
